@@ -17,7 +17,9 @@
   where nth members are demoted), BYHOUR, BYMINUTE, BYSECOND, BYSETPOS (DAILY / MONTHLY / YEARLY; not
   WEEKLY, see D-C01e), the defaults taken from the start, COUNT, UNTIL (for WEEKLY: UNTIL not before
   the start).  Missing: the three sub-daily frequencies (the model skips empty periods, so the
-  refinement is not period-by-period), the three computed masks (BYWEEKNO, nth BYDAY, BYEASTER) and
+  refinement is not period-by-period), the three computed masks (BYWEEKNO, nth BYDAY, BYEASTER — for
+  the latter two the mask lemmas `nwdaymask_marks_nth_weekdays` (MONTHLY) and
+  `eastermask_marks_easter_offsets` are proved but not yet wired into the refinement) and
   WEEKLY + BYSETPOS on a week start.  Everything else below — including
   `iter_strictMono` for all seven frequencies — is proved for ALL rules / all argument sets, with no
   `Supported` hypothesis (so also inside the known-defect classes).
@@ -27,6 +29,7 @@ import DateutilVerif.Proofs.RRuleMonoAll
 import DateutilVerif.Proofs.RRuleYM
 import DateutilVerif.Proofs.RRuleWeekly
 import DateutilVerif.Proofs.RRuleEaster
+import DateutilVerif.Proofs.RRuleNth
 
 namespace C01
 open RRule Cal RRule.Tables
@@ -92,6 +95,21 @@ theorem eastermask_marks_easter_offsets (byeaster : List Int) (y : Int) (hy1 : 1
       ∀ j, 0 ≤ j → j < daysInYear y + 7 →
         Py.getIdx mask j = .ok (if (toOrdinal y 1 1 + j - Spec.RRule.easterOrd y) ∈ byeaster then 1 else 0) :=
   eastermask_spec byeaster y hy1 hy2 hoff
+
+/-- **the nth-weekday mask of a MONTHLY rule** (with the range guard of the D-C01b fix): for every
+    year, month and list of `(weekday, n)` pairs (`n ≠ 0`, any magnitude — e.g. `MO(8)`), building the
+    mask raises nothing, and index `j` is marked exactly when its date lies in the cursor's month, has
+    the weekday of one of the pairs and is the `n`-th such weekday of the month counted from the start
+    (`n > 0`) or from the end (`n < 0`).  (Mask lemma only: nth BYDAY is not yet part of the proved
+    portion of `iter_eq_spec`.) -/
+theorem nwdaymask_marks_nth_weekdays (r : Rule) (y m : Int) (info : Info) (h : rebuild r y m = .ok info)
+    (hf : r.freq = 1) (nwl : List (Int × Int)) (hne : nwl ≠ []) (hnw : r.bynweekday = some nwl)
+    (hok : ∀ wn ∈ nwl, (0 ≤ wn.1 ∧ wn.1 ≤ 6) ∧ wn.2 ≠ 0) (month : Int) (hm1 : 1 ≤ month) (hm12 : month ≤ 12) :
+    ∃ mask, buildNwdaymask r info.yearlen info.mrange info.wdaymask month = .ok (some mask) ∧
+      ∀ j : Int, 0 ≤ j → j < info.yearlen →
+        Py.getIdx mask j = .ok (if ∃ wn ∈ nwl, marks info (daysBeforeMonth y month)
+            (daysBeforeMonth y month + daysInMonth y month - 1) j wn then 1 else 0) :=
+  nwdaymask_monthly (rebuild_facts r y m info h) hf nwl hne hnw hok month hm1 hm12
 
 /-! ### 2. the constructor -/
 
